@@ -58,6 +58,17 @@ def _index_loop(cx, key, body_key, label, field_min="min_timestamp", field_max="
         cx.passed(key, "%s:inclusive-upper-bucket" % label, [b.sp(used[0]["block"])] + [b.sp(e) for e in effects], "runs while bucket <= end bucket")
     else:
         cx.violation(key, "%s:inclusive-upper-bucket" % label, "%s: the index update is not guarded by bucket <= end bucket" % b.sp(effects[0]), [b.sp(effects[0])])
+    # registration indexes unconditionally: the save of the catalog (or, without one, every success exit) lies behind the loop's exit edge -
+    # no path updates the chunk map and skips the time index (e.g. "path already known")
+    if label == "register" and exit_e:
+        saves = M.find_calls(b, lambda c: c.endswith("atomic_save_catalog"))
+        sinks = [(s, M.T) for s in saves] or [(e[0], e[1]) for e in M.exit_defs(b) if e[2] != "err"]
+        skipping = [s for s in sinks if not b.dominated_by_edges(s[0], exit_e)]
+        if skipping:
+            cx.violation(key, "register:index-unconditional", "%s: the registration can be %s without the bucket loop having run: the chunk is in the chunk map but missing from (part of) the "
+                         "time index, and time-range lookups skip it" % (b.sp(skipping[0][0], skipping[0][1]), "saved" if saves else "completed"), [b.sp(skipping[0][0], skipping[0][1])])
+        else:
+            cx.passed(key, "register:index-unconditional", [b.sp(s[0], s[1]) for s in sinks[:2]])
     # increment = the hour constant
     incs = set()
     for e in effects:
